@@ -33,26 +33,28 @@ func RefStore(c Cfg, domain string) bool {
 	return containsFold(c.StoreDomains, d)
 }
 
-// WildMatch is a backtracking reference matcher: '*' any run (also empty), '?' one character.
+// WildMatch is a reference matcher written directly from the definition ('*' any run, also
+// empty; '?' exactly one character), as a recursion over (pattern position, subject position)
+// with memoisation so that patterns with many stars stay cheap.
 func WildMatch(p, s string) bool {
 	pr, sr := []rune(p), []rune(s)
+	memo := map[[2]int]bool{}
 	var rec func(i, j int) bool
 	rec = func(i, j int) bool {
-		if i == len(pr) {
-			return j == len(sr)
+		if v, ok := memo[[2]int{i, j}]; ok {
+			return v
 		}
-		if pr[i] == '*' {
-			for k := j; k <= len(sr); k++ {
-				if rec(i+1, k) {
-					return true
-				}
-			}
-			return false
+		var r bool
+		switch {
+		case i == len(pr):
+			r = j == len(sr)
+		case pr[i] == '*':
+			r = rec(i+1, j) || (j < len(sr) && rec(i, j+1))
+		case j < len(sr) && (pr[i] == '?' || pr[i] == sr[j]):
+			r = rec(i+1, j+1)
 		}
-		if j < len(sr) && (pr[i] == '?' || pr[i] == sr[j]) {
-			return rec(i+1, j+1)
-		}
-		return false
+		memo[[2]int{i, j}] = r
+		return r
 	}
 	return rec(0, 0)
 }
